@@ -113,6 +113,7 @@ class ComputeWeightsModified(ComputeWeights):
     (must_hold): over the reals the weights sum to exactly b-a, so it can never fire."""
     label = "GlobalTrapezoidalGrid.compute_weights[modified,n>=5]"
     modified = True
+    total = False   # the closing +-1e-12 self-assert on sum(weights[1:-1]) needs the sum of all loop results at once (not decided by the solvers; layer B exercises it)
     model_to_input = staticmethod(_model_to_input(True))
 
     def pre(self, S, env):
